@@ -684,6 +684,10 @@ impl<'a> Lexer<'a> {
                     self.should_create = false;
 
                     true
+                } else if self.could_be_sub_expression {
+                    trace!("Newline after the newline that ended a line annotation. Creating subexpression token");
+                    // the line break that ended the comment line was the first one of this blank line
+                    true
                 } else {
                     trace!("Non-newline character found");
 
@@ -765,6 +769,8 @@ impl<'a> Lexer<'a> {
             ]
             .contains(&self.current_token_type);
 
+            let ended_line_annotation = self.current_token_type == Some(TokenType::LineAnnotation) && self.current_characters.ends_with('\n');
+
             if self.state != LexingState::NoToken {
                 trace!("Pushing new token: {:?}", self.current_token_type);
 
@@ -798,7 +804,8 @@ impl<'a> Lexer<'a> {
             self.current_token_type = None;
             self.start_quote_count = 0;
             self.end_quote_count = 0;
-            self.could_be_sub_expression = false;
+            // a comment line takes its line break into its token, a second line break after it makes a blank line
+            self.could_be_sub_expression = ended_line_annotation;
 
             if self.should_create {
                 trace!("Starting new token");
